@@ -5,6 +5,7 @@ import (
 	"bytes"
 	"fmt"
 	"runtime"
+	"strconv"
 	"sync/atomic"
 
 	"github.com/b2broker/simplefix-go/fix"
@@ -67,7 +68,7 @@ func regionOf(b *base, off int) string {
 
 func main() {
 	c := vk.Init("C03")
-	c.Rule("for each base message (valid, serialized by the library from generated templates/populations, every tests/fix44 type, or by the reference encoder) the COMPLETE single-edit neighbourhood is enumerated: all 255*len substitutions, all 256*(len-1) interior insertions, all len deletions, all len-1 proper prefixes; each variant is parsed strict and non-strict into an empty message of the right type. Deciding clause: accepted => fixref.CheckFrame passes. Framing-neutral variants (a zero byte inserted into the BeginString value: changes neither the counted length nor the byte sum) are counted, not judged. distinct = (base, edit) pairs, all distinct; non-trivial = edit touches a framing field or a delimiter")
+	c.Rule("for each base message (valid, serialized by the library from generated templates/populations, every tests/fix44 type, or by the reference encoder, including messages whose content is crafted so that a CheckSum look-alike inside a value carries the byte sum of the message after one substitution) the COMPLETE single-edit neighbourhood is enumerated: all 255*len substitutions, all 256*(len-1) interior insertions, all len deletions, all len-1 proper prefixes; each variant is parsed strict and non-strict into an empty message of the right type. Deciding clause: accepted => fixref.CheckFrame passes. Framing-neutral variants (a zero byte inserted into the BeginString value: changes neither the counted length nor the byte sum) are counted, not judged. distinct = (base, edit) pairs, all distinct; non-trivial = edit touches a framing field or a delimiter")
 	c.Assume("BeginString values of base messages contain no zero byte; base messages have one template position per tag")
 	nGen := c.Pick(24, 900)
 	nRef := c.Pick(8, 300)
@@ -134,6 +135,22 @@ func main() {
 		bases = append(bases, &base{name: fmt.Sprintf("ref#%d", i), ft: t.FT, wire: wire, empty: func() *fix.Message { return tt.Empty() }})
 	}
 
+	// crafted content: a value that contains a CheckSum look-alike "Y10=ddd" whose ddd is solved so that it equals
+	// the byte sum of the message after the single substitution 'Y' -> SOH (which turns the look-alike into a field)
+	for k := 0; k < c.Pick(6, 60); k++ {
+		filler := fmt.Sprintf("id%d", k)
+		for ddd := 0; ddd < 256; ddd++ {
+			val := fmt.Sprintf("%sY10=%03d", filler, ddd)
+			wire := fixref.Encode(fixref.Std, "FIX.4.4", "1", []fixref.Field{fixref.F("49", "A"), fixref.F("56", "B"), fixref.F("34", "7"), fixref.F("52", "20240101-00:00:00.000"), fixref.F("112", val)})
+			fs, _ := fixref.Tokenize(wire)
+			real, _ := strconv.Atoi(string(fs[len(fs)-1].Val))
+			if (real+1-int('Y')+512)%256 == ddd {
+				tyy := gen.F44Types[1] // TestRequest
+				bases = append(bases, &base{name: fmt.Sprintf("crafted-checksum-lookalike#%d", k), ft: fixref.Std, wire: wire, empty: func() *fix.Message { return tyy.New() }})
+				break
+			}
+		}
+	}
 	var neutralAccepted, neutralRejected, oracleValid int64
 	type job struct {
 		b    *base
